@@ -257,6 +257,116 @@ def regex_model(n=3000, seed=0):
     return count
 
 
+def idioms():
+    """language constructs (engine/idioms.py) in CPython and in the interpreter"""
+    import copy
+    import z3
+    from . import idioms as mod
+    eng = symx.Engine(repo_prefix='engine.idioms', always_interpret=True)
+    eng.solver = z3.Solver()
+    eng.decisions, eng.pos, eng.pending = [], 0, []
+    count = 0
+    for fn, argsets in mod.CASES:
+        for args in argsets:
+            both(eng, fn, copy.deepcopy(args), copy.deepcopy(args))
+            count += 1
+    return count
+
+
+def realize(v, m):
+    """the concrete Python value a (possibly symbolic) interpreter value takes in the model m"""
+    import enum
+    import z3
+    from .symx import SBool, GuardedList
+
+    def ev(z):
+        return m.eval(z, model_completion=True)
+    if isinstance(v, SInt):
+        return ev(v.z).as_long()
+    if isinstance(v, SBool):
+        return z3.is_true(ev(v.z))
+    if isinstance(v, SEnum):
+        code = ev(v.z).as_long()
+        if code == 0:
+            return None
+        return [x for x in v.cls if symx.enum_code(x) == code][0]
+    if isinstance(v, SStr):
+        return ''.join(chr(c if isinstance(c, int) else ev(c).as_long()) for c in v.chars)
+    if isinstance(v, GuardedList):
+        return [realize(x, m) for g, x in v.items if g is None or z3.is_true(ev(g))]
+    if isinstance(v, SObj):
+        return (v.cls.__name__, {k: realize(x, m) for k, x in sorted(v.attrs.items())})
+    if isinstance(v, Sym):
+        raise Mismatch('cannot realize ' + type(v).__name__)
+    if isinstance(v, tuple):
+        return tuple(realize(x, m) for x in v)
+    if isinstance(v, list):
+        return [realize(x, m) for x in v]
+    if isinstance(v, dict):
+        return {realize(k, m): realize(x, m) for k, x in v.items()}
+    if isinstance(v, (set, frozenset)):
+        return {realize(x, m) for x in v}
+    if isinstance(v, enum.Enum) or v is None or isinstance(v, (int, str, bytes, bool, float)):
+        return v
+    if hasattr(v, '__dict__'):
+        return (type(v).__name__, {k: realize(x, m) for k, x in sorted(vars(v).items())})
+    return v
+
+
+def symbolic_idioms():
+    """engine/idioms_sym.py: symbolic exploration over a small domain against CPython on every point of the domain"""
+    import itertools
+    import z3
+    from . import idioms_sym as mod
+    from .symx import SBool
+    count = 0
+    for fn, domains in mod.SYM_CASES:
+        eng = symx.Engine(repo_prefix='engine.idioms_sym')
+        zs = []
+        for i, d in enumerate(domains):
+            zs.append(z3.Bool(f'a{i}') if d[0] == 'bool' else z3.Int(f'a{i}'))
+
+        def one(eng):
+            args = []
+            for z, d in zip(zs, domains):
+                if d[0] == 'int':
+                    eng.assume(z3.And(d[1] <= z, z <= d[2]))
+                    args.append(SInt(z))
+                elif d[0] == 'bool':
+                    args.append(SBool(z))
+                else:
+                    eng.assume(z3.And(1 <= z, z <= len(list(d[1]))))
+                    args.append(SEnum(d[1], z))
+            try:
+                r = ('ret', eng.call_function(fn, args, {}))
+            except symx.RaiseEx as e:
+                r = ('raise', type(e.exc).__name__)
+            return list(eng.pc), r
+        paths = eng.explore(one)
+        ranges = [range(d[1], d[2] + 1) if d[0] == 'int' else ([False, True] if d[0] == 'bool' else list(d[1])) for d in domains]
+        for point in itertools.product(*ranges):
+            try:
+                want = ('ret', fn(*point))
+            except Exception as e:
+                want = ('raise', type(e).__name__)
+            fix = [z == (symx.enum_code(v) if d[0] == 'enum' else v) for z, v, d in zip(zs, point, domains)]
+            hit = 0
+            for pc, r in paths:
+                s = z3.Solver()
+                s.add(*pc)
+                s.add(*fix)
+                if s.check() != z3.sat:
+                    continue
+                hit += 1
+                got = r if r[0] == 'raise' else ('ret', realize(r[1], s.model()))
+                if norm(got[1]) != norm(want[1]) or got[0] != want[0]:
+                    raise Mismatch(f'symbolic {fn.__name__}{point}: CPython {want} vs interpreter {got}')
+            if hit == 0:
+                raise Mismatch(f'symbolic {fn.__name__}{point}: no explored path covers this input')
+            count += 1
+    return count
+
+
 def run(names, tier):
     """returns total number of compared executions; raises Mismatch"""
     scale = 3 if tier == 'thorough' else 1
@@ -265,6 +375,8 @@ def run(names, tier):
              'scores': lambda: scores(300 * scale, common.SEED), 'converters': lambda: converters(common.SEED),
              'messages': lambda: messages(100 * scale, common.SEED), 'pbn_files': lambda: pbn_files(common.SEED),
              'regex_model': lambda: regex_model(2000 * scale, common.SEED)}
-    for n in names:
+    table['idioms'] = idioms
+    table['symbolic_idioms'] = symbolic_idioms
+    for n in ['idioms', 'symbolic_idioms'] + [x for x in names if x not in ('idioms', 'symbolic_idioms')]:
         total += table[n]()
     return total
